@@ -144,6 +144,13 @@ func c07StateMachine(p *core.Prog, r *core.Report, locks *core.Locks, sp stateSp
 			nv, _ := fl.ValueAt(store.Val, store)
 			construct := fmt.Sprintf("%s = %s%s", fld.Name(), desc(store.Val), cdesc)
 			pos := p.Pos(store.Pos())
+			if nv == d.Top() {
+				// nothing at all is known about the stored value (it came
+				// through a helper's parameters in a way the analysis does
+				// not follow): that is "cannot decide", not a wrong state
+				r.Undecided("C07-R1", fn, construct, pos, "the value stored could not be resolved (no information): cannot decide the transition")
+				continue
+			}
 			if nv&^declared != 0 {
 				r.Fail("C07-R1", fn, construct, pos, "stored value may be outside the declared states: "+d.String(nv))
 				continue
@@ -713,7 +720,14 @@ func c07Admission(p *core.Prog, r *core.Report) {
 					k, isK := core.ConstInt(b.Y)
 					return isK && d.Of(k) == active
 				}, true) || fs.hasCmp(func(ssa.Value) bool { return true }, []token.Token{token.EQL}, d.Min(active))
+				// either inside the closure run by withStateRLock, or with the
+				// state mutex taken directly
 				inClosure := g.Parent() != nil
+				if !inClosure {
+					if sm := p.Field("", "Connection", "stateMut"); sm != nil && p.ComputeLocks().At(c.(ssa.Instruction))[sm] != core.NotHeld {
+						inClosure = true
+					}
+				}
 				r.Check(guard && inClosure, "C07-R4", fname(g), "pending.Inc() under state==Active inside the state read-lock", p.Pos(c.Pos()),
 					"relay admission counts the call while holding the state lock, only when active", fmt.Sprintf("guard=%v inLockClosure=%v", guard, inClosure))
 			}
@@ -734,7 +748,7 @@ func c07Admission(p *core.Prog, r *core.Report) {
 				if !ok {
 					return false
 				}
-				return !(len(ret.Results) == 2 && loadsGlobal(ret.Results[1], "ErrConnectionClosed"))
+				return !(len(ret.Results) == 2 && loadsGlobal(core.ReturnValues(ret)[1], "ErrConnectionClosed"))
 			}, nil, prune)
 			construct := fmt.Sprintf("readState() observation #%d is non-active", k+1)
 			if bad.Found {
@@ -792,7 +806,7 @@ func c07Admission(p *core.Prog, r *core.Report) {
 					}
 				}
 				if ret, ok := i.(*ssa.Return); ok {
-					return len(ret.Results) == 2 && core.IsNilConst(ret.Results[1])
+					return len(ret.Results) == 2 && core.IsNilConst(core.ReturnValues(ret)[1])
 				}
 				return false
 			}, nil, edgePrune(fl))
@@ -819,7 +833,7 @@ func c07Listener(p *core.Prog, r *core.Report) {
 	n := 0
 	core.EachInstr(closeF, func(i ssa.Instruction) {
 		ret, ok := i.(*ssa.Return)
-		if !ok || len(ret.Results) != 1 || !core.IsNilConst(ret.Results[0]) {
+		if !ok || len(ret.Results) != 1 || !core.IsNilConst(core.ReturnValues(ret)[0]) {
 			return
 		}
 		n++
